@@ -1,8 +1,8 @@
 (* Extraction of the executable model.  Only ExtrOcamlBasic's directives are used. *)
 Require Extraction.
 Require Import ExtrOcamlBasic.
-From RS Require Import Base Setters Shape Sys Exec Result Config Macro Join.
+From RS Require Import Base Setters Shape Sys Exec Result Config Macro Join Chan.
 Extraction Language OCaml.
 Extraction "../ocaml/model.ml" apply_action succs view_of strip xinit mkFeats run has_path format_cycle
   all_shapes is_completed is_failed was_killed stopped_normally is_startup_failed is_runtime_failed
-  is_cleanup_failed is_stop_failed has_actor r_actor r_error to_result to_tuple is_retryable run_sets default_cap decide ask_join all_join_cases.
+  is_cleanup_failed is_stop_failed has_actor r_actor r_error to_result to_tuple is_retryable run_sets default_cap decide ask_join all_join_cases cstep init_chan.
